@@ -82,7 +82,18 @@ FIXED = [
                                          tasks=[[{"op": "build", "id": 0, "recipe": N("Conditional", "g", 1.5), "expect": "own"}]]))),
 ]
 
+C20_SHORTHAND = ("C20-known-shorthand-emission", {
+    "format": kernel.FORMAT, "property": "C20", "config": {"order_keys": KEYS, "hashseed": 0},
+    "world": {"texts": {"t0": "\u0663 7", "t1": "a\u0663b"}},
+    "tasks": [[{"op": "build", "id": 0, "recipe": ["or", ["or", ["named", "AnyDigit"], ["inv", ["AnyButBetween", "*", "."]]], ["AnyFrom", "/"]]}]],
+    "schedule": []})
+
 KNOWN = [
+    ("C20", "whether a class is spelled with the Unicode-aware shorthand \\d (or \\s) can depend on set iteration order when a member is adjacent "
+            "to both a range and the digit block ((AnyDigit() | ~AnyButBetween('*','.')) | AnyFrom('/') is '[*-\\/\\d]' or '[*-.\\/-9]'), so the "
+            "same expression matches non-ASCII digits under some hash seeds only; C06/C07 leave those code points unspecified, C20 does not; "
+            "found by the thorough-tier soak (about 1 in 30 000 class expressions); not repaired because canonical merging of adjacent ranges "
+            "changes the documented spellings the test suite pins", C20_SHORTHAND),
     ("C03", "a repeating quantifier applied to a bare anchor (an anchor of the empty pattern) returns an invalid regex such as '$?' "
             "instead of raising CannotBeRepeatedException; input-dimension defect, not configuration dependent; not repaired because the "
             "repair changes type inference of one-character patterns",
